@@ -62,7 +62,8 @@ inductive Ev
   | stray (u : U) (down : Bool) (n : Int)       -- the same on the valve of a record that has been retired
   | collectAll
   | swapOne (u : U)
-  | swapOld (u : U)                             -- updateUsageQueueForOne on a record that has been retired already
+  | swapOld (u : U) (up down : Int)             -- updateUsageQueueForOne on ONE record of `u` that has been retired
+                                                -- already: it holds `up`/`down` of what `old` sums over all of them
   | enqueueOne (u : U)
   | snapshot
   | upload (now : Int)
@@ -94,9 +95,11 @@ def step (s : St) : Ev → St
   | .swapOne u =>
     { s with pending := fun k => if k.1 = u then s.pending k + s.valve k else s.pending k,
              valve := fun k => if k.1 = u then 0 else s.valve k }
-  | .swapOld u =>
-    { s with pending := fun k => if k.1 = u then s.pending k + s.old k else s.pending k,
-             old := fun k => if k.1 = u then 0 else s.old k }
+  | .swapOld u up down =>
+    if 0 ≤ up ∧ up ≤ s.old (u, false) ∧ 0 ≤ down ∧ down ≤ s.old (u, true) then
+      { s with pending := fun k => if k.1 = u then s.pending k + (if k.2 then down else up) else s.pending k,
+               old := fun k => if k.1 = u then s.old k - (if k.2 then down else up) else s.old k }
+    else s
   | .enqueueOne u =>
     { s with queue := fun k => if k.1 = u then s.queue k + s.pending k else s.queue k,
              pending := fun k => if k.1 = u then 0 else s.pending k,
